@@ -800,9 +800,14 @@ pub fn validate_abnf(abnf: &str, target: &str) -> Result<(), String> {
 
     let ast = pest_meta::parser::consume_rules(pairs).unwrap();
 
+    let rule = rule.replace('-', "_");
+    // pest_vm panics when asked for a rule the grammar does not define
+    if !ast.iter().any(|r| r.name == rule) {
+      return Err(format!("abnf rule {} is not defined", rule));
+    }
+
     let vm = pest_vm::Vm::new(pest_meta::optimizer::optimize(ast));
 
-    let rule = rule.replace('-', "_");
     let _ = vm.parse(&rule, target).map_err(|e| e.to_string())?;
   }
 
